@@ -21,6 +21,8 @@ from yowsup.layers.protocol_messages.protocolentities import TextMessageProtocol
 from axolotl.state.prekeyrecord import PreKeyRecord
 from axolotl.ecc.curve import Curve
 from axolotl.ecc.djbec import DjbECPublicKey
+from axolotl.util.keyhelper import KeyHelper
+from yowsup.profile.profile import YowProfile
 
 ID = "C14"
 LEVEL = "exploration"
@@ -82,6 +84,24 @@ def run_case(case):
         home, _ = A.template(X, registered=False)
         hx = A.clone(home)
         homes.append(hx)
+        if case.get("signed_prekey_start") is not None or case.get("prekey_start") is not None:
+            # the account has been in use for a long time: its key numbering is near (or at) the end of the 24-bit id space,
+            # a state the manager has an explicit branch for
+            A.envkit_home(hx)
+            m = YowProfile(X.split("@")[0]).axolotl_manager
+            if case.get("signed_prekey_start") is not None:
+                spk = KeyHelper.generateSignedPreKey(m.identity, case["signed_prekey_start"])
+                m._store.storeSignedPreKey(spk.getId(), spk)
+                out.label("signed_prekey_numbering_starts_at_" + ("max" if case["signed_prekey_start"] == AxolotlManager.MAX_SIGNED_PREKEY_ID
+                                                                 else "max-1" if case["signed_prekey_start"] == AxolotlManager.MAX_SIGNED_PREKEY_ID - 1
+                                                                 else "low"))
+            if case.get("prekey_start") is not None:
+                # a key generated long ago that the server confirmed and nobody has used yet
+                old = KeyHelper.generatePreKeys(case["prekey_start"], 1)
+                m._store.storePreKey(old[0].getId(), old[0])
+                m.set_prekeys_as_sent(old)
+                out.label("prekey_numbering_near_the_end")
+            m._store.identityKeyStore.dbConn.close()
         clients[X] = A.Client(server, X, hx)
         for p in PEERS:
             # peers are registered with the default batch size of the templates
@@ -123,6 +143,12 @@ def _run(case, out, server, clients, hx):
     nt = False
     peer_msgs = 0
     pending_policy = case.get("initial_policy", "result")
+    _db_start = db_rows(hx, phone)
+    for kid, (sent, pub) in (_db_start["keys"].items() if _db_start else ()):
+        if sent:
+            # a key from the account's earlier life, confirmed by the server then
+            confirmed.add(kid)
+            offered[kid] = pub
 
     def fail(key, detail):
         out.fail("prekeys", key, detail)
@@ -381,9 +407,14 @@ def script_strategy():
                    st.tuples(st.just("consume"), sel, st.sampled_from([0, 0, 1, 3, -1, -1])).map(list),
                    st.tuples(st.just("consume"), sel, st.sampled_from([0, 0, 1, 3, -1, -1])).map(list),
                    st.tuples(st.just("reoffer"), sel).map(list))
-    return st.builds(lambda ops, seed, pol: {"sub": "history", "seed": seed, "initial_policy": pol, "ops": [["connect"]] + ops},
+    top = AxolotlManager.MAX_SIGNED_PREKEY_ID
+    return st.builds(lambda ops, seed, pol, spk, pk: dict({"sub": "history", "seed": seed, "initial_policy": pol, "ops": [["connect"]] + ops},
+                                                          **dict(([("signed_prekey_start", spk)] if spk is not None else []) +
+                                                                 ([("prekey_start", pk)] if pk is not None else []))),
                      st.lists(op, min_size=1, max_size=13), st.integers(0, 2 ** 31 - 1),
-                     st.sampled_from(["result", "result", "error", "drop", "drop"]))
+                     st.sampled_from(["result", "result", "error", "drop", "drop"]),
+                     st.sampled_from([None, None, None, None, None, 7, top - 1, top]),
+                     st.sampled_from([None, None, None, None, None, None, top - 9, top - 4, top - 1]))
 
 
 def _enum_basic():
@@ -396,6 +427,10 @@ def _enum_basic():
            "ops": [["connect_nosuccess"], ["count"], ["disconnect"], ["policy", "result"], ["connect"], ["restart"]]}
     yield {"sub": "history", "seed": 8, "ops": [["connect"], ["disconnect"], ["connect_nosuccess"], ["policy", "drop"], ["count"], ["disconnect"],
                                                 ["policy", "result"], ["connect"], ["consume", 0, 0]]}
+    top = AxolotlManager.MAX_SIGNED_PREKEY_ID
+    for spk in (top - 1, top):
+        yield {"sub": "history", "seed": 9, "signed_prekey_start": spk, "ops": [["connect"], ["count"], ["restart"], ["count"], ["consume", 0]]}
+    yield {"sub": "history", "seed": 10, "prekey_start": top - 3, "ops": [["connect"], ["consume", 0], ["count"], ["restart"], ["consume", 1, -1]]}
     yield {"sub": "history", "seed": 4, "ops": [["connect"], ["policy", "drop"], ["count"], ["restart"], ["policy", "result"], ["restart"]]}
 
 
